@@ -71,6 +71,9 @@ pub fn ref_dec(p: &Plan, offered: &[u8]) -> RefDec {
             if offered.len() > nb {
                 return RefDec::Invalid("longer than ssz_fixed_len");
             }
+            if nb == 0 {
+                return RefDec::Value(vec![vec![]], Some(0));
+            }
             items(p.bits, offered)
         }
         1 => {
